@@ -160,7 +160,11 @@ def check(tier):
     ck.add("queue-retime", "harness.C20", "retime_job", dict(cases=[(R, C, s_) for R in (1, 2) for C in (2, 3) for s_ in range(C)]))
     from . import C05
     for cse in C05.cases("quick")[:3]:
-        ck.add("ssa-init/S%dR%dT%d/ci%d" % cse, "harness.C05", "step_job", dict(cases=[cse], facets=["init", "feasible"]))
+        ck.add("ssa-init/S%dR%dT%d/ci%d" % cse, "harness.C05", "step_job", dict(cases=[cse], facets=["init", "feasible", "model-untouched"]))
+    # simulators without delay support apply both parts at the firing time - and leave the model's two stoichiometric matrices as they
+    # are, so that a later delay-aware run of the same model still delivers the delayed part once
+    for cse in [(2, 2, 2, 0), (2, 2, 2, 1)]:
+        ck.add("volume-nodelay/S%dR%dT%d/ci%d" % cse, "harness.steps", "volume_step", dict(cases=[cse], facets=["init", "feasible", "model-untouched"]))
     ck.bounds = dict(species="<= 3", reactions="<= 2", time_points="<= 4", queue_slots="2..4, every ring position",
                      gamma_rejection_loop="first and second iteration (later iterations cut, stated)",
                      loops="one iteration from an arbitrary pre-state incl. arbitrary queue contents (inductive)")
